@@ -750,6 +750,11 @@ def dict_attr(I, v, name):
             I.dict_set(v, a[0], a[1] if len(a) > 1 else None)
             return a[1] if len(a) > 1 else None
         return Builtin('dict.setdefault', f)
+    if name == 'clear':
+        def f(I, a, k):
+            W.note_mutation(I, v)
+            v.clear()
+        return Builtin('dict.clear', f)
     raise Unsupported('dict.%s' % name)
 
 
